@@ -1,1 +1,725 @@
-fn main() { verif_common::machinery_error("engine not built yet"); }
+//! rt_typealg — property C17: laws of the type algebra in `rustdoc_ir` (template matching,
+//! substitution, equivalence up to renaming, canonicalisation, render/parse round trip), decided by
+//! bounded-exhaustive enumeration of type terms against the real crate.
+mod laws;
+mod spec;
+mod synconv;
+mod universe;
+
+use laws::Verdict;
+use rustdoc_ir::{CanonicalType, Type};
+use serde_json::{Value, json};
+use spec::{S, erase, from_type, is_concrete, ref_equivalent_erased, show, to_type, wildcard_generics};
+use std::collections::{BTreeMap, HashMap};
+use std::panic::{AssertUnwindSafe, catch_unwind};
+use verif_common::{Args, Reporter, machinery_error};
+
+/// A nominated violation: law + indices of the terms.
+#[derive(Clone, Debug, PartialEq, Eq, PartialOrd, Ord, serde::Serialize, serde::Deserialize)]
+struct Suspect {
+    /// smaller = nicer witness (total printed size; templates without generic parameters last)
+    rank: u32,
+    law: String,
+    idx: Vec<u32>,
+}
+
+impl Suspect {
+    fn new(p: &Prepared, law: &str, idx: Vec<u32>) -> Suspect {
+        let mut rank: u32 = idx.iter().map(|&i| p.size[i as usize]).sum();
+        if law == "template" && p.concrete[idx[0] as usize] {
+            rank += 1000;
+        }
+        Suspect { rank, law: law.to_string(), idx }
+    }
+}
+
+#[derive(Default, serde::Serialize, serde::Deserialize)]
+struct Local {
+    nonconcrete_mismatch_by_key: BTreeMap<String, u64>,
+    pairs_done: u64,
+    // template law
+    tmpl_calls: u64,
+    tmpl_none: u64,
+    tmpl_some_empty: u64,
+    tmpl_some_nonempty_concrete_ok: u64,
+    tmpl_some_empty_concrete_ok: u64,
+    tmpl_concrete_fail: u64,
+    tmpl_nonconcrete_ok: u64,
+    tmpl_nonconcrete_mismatch: u64,
+    // equivalence
+    equiv_calls: u64,
+    equiv_related: u64,
+    equiv_related_distinct: u64,
+    equiv_unrelated: u64,
+    equiv_unsound: u64,
+    equiv_asymmetric: u64,
+    equiv_not_reflexive: u64,
+    ref_related_impl_not: u64,
+    ref_related_distinct: u64,
+    // canonical forms
+    canon_eq_pairs_distinct: u64,
+    canon_eq_not_equiv: u64,
+    // per key: occurrences and smallest suspect
+    by_key: HashMap<String, (u64, Suspect)>,
+    /// related pairs (a, b) inside the quick universe, a != b, both directions listed
+    related_quick: Vec<(u32, u32)>,
+    sample_tmpl: Vec<(u32, u32)>,
+    sample_equiv: Vec<(u32, u32)>,
+    sample_nonconcrete_mismatch: Vec<(u32, u32)>,
+    sample_ref_related_impl_not: Vec<(u32, u32)>,
+}
+
+impl Local {
+    fn suspect(&mut self, key: String, s: Suspect) {
+        let e = self.by_key.entry(key).or_insert_with(|| (0, s.clone()));
+        e.0 += 1;
+        if s < e.1 {
+            e.1 = s;
+        }
+    }
+}
+
+struct Prepared {
+    specs: Vec<S>,
+    types: Vec<Type>,
+    erased: Vec<S>,
+    shape: Vec<u32>,
+    concrete: Vec<bool>,
+    canon: Vec<CanonicalType>,
+    kind: Vec<u8>,
+    /// printed length, used to prefer small witnesses
+    size: Vec<u32>,
+    quick_len: usize,
+}
+
+fn root_kind(s: &S) -> u8 {
+    match s {
+        S::Scalar(_) => 0,
+        S::Gen(_) => 1,
+        S::Path { .. } => 2,
+        S::Ref { .. } => 3,
+        S::Tuple(_) => 4,
+        S::Slice(_) => 5,
+        S::Array(..) => 6,
+        S::Ptr { .. } => 7,
+        S::Fn { .. } => 8,
+    }
+}
+const KIND_GENERIC: u8 = 1;
+const N_KINDS: usize = 9;
+
+fn prepare(u: &universe::Universe) -> Prepared {
+    let specs = u.terms.clone();
+    let types: Vec<Type> = specs.iter().map(to_type).collect();
+    // the bridge itself must be lossless on the alphabet, otherwise nothing below means anything
+    for (s, t) in specs.iter().zip(types.iter()) {
+        match from_type(t) {
+            Ok(b) if &b == s => {}
+            other => machinery_error(&format!("bridge S->Type->S not the identity on {}: {other:?}", show(s))),
+        }
+    }
+    let erased: Vec<S> = specs.iter().map(erase).collect();
+    let mut intern: HashMap<S, u32> = HashMap::new();
+    let shape = erased
+        .iter()
+        .map(|e| {
+            let w = wildcard_generics(e);
+            let n = intern.len() as u32;
+            *intern.entry(w).or_insert(n)
+        })
+        .collect();
+    let concrete = specs.iter().map(is_concrete).collect();
+    let canon = types.iter().map(|t| t.canonicalize()).collect();
+    let kind = specs.iter().map(root_kind).collect();
+    let size = specs.iter().map(|s| show(s).len() as u32).collect();
+    Prepared {
+        specs,
+        types,
+        erased,
+        shape,
+        concrete,
+        canon,
+        kind,
+        size,
+        quick_len: u.quick_len,
+    }
+}
+
+/// Everything that is decided for the ordered pair (i, j). Equivalence is evaluated in both
+/// directions when i <= j (so every unordered pair is seen once, both directions executed).
+fn pair(p: &Prepared, i: usize, j: usize, l: &mut Local) {
+    let (ti, tj) = (&p.types[i], &p.types[j]);
+    // ---- template law, ordered: i is the template, j the concrete type
+    l.tmpl_calls += 1;
+    match ti.is_a_template_for(tj) {
+        None => l.tmpl_none += 1,
+        Some(b) => {
+            if b.is_empty() {
+                l.tmpl_some_empty += 1;
+            }
+            let bound = ti.bind_generic_type_parameters(&b);
+            let eb = match from_type(&bound) {
+                Ok(bs) => erase(&bs),
+                Err(e) => machinery_error(&format!("bind produced a term outside the alphabet: {e}")),
+            };
+            let holds = eb == p.erased[j];
+            // same computation as laws::template (which re-decides the reported witness)
+            let fail_key = || -> String {
+                let mut b_s: HashMap<String, S> = HashMap::new();
+                for (k, v) in &b {
+                    b_s.insert(k.clone(), from_type(v).unwrap_or_else(|e| machinery_error(&format!("binding outside the alphabet: {e}"))));
+                }
+                let own = erase(&spec::subst(&p.specs[i], &b_s));
+                laws::template_fail_key(&eb, &own, &p.erased[j])
+            };
+            if p.concrete[j] {
+                if holds {
+                    if b.is_empty() {
+                        l.tmpl_some_empty_concrete_ok += 1;
+                    } else {
+                        l.tmpl_some_nonempty_concrete_ok += 1;
+                        if l.sample_tmpl.len() < 4 && b.len() >= 2 && spec::depth(&p.specs[i]) >= 2 {
+                            l.sample_tmpl.push((i as u32, j as u32));
+                        }
+                    }
+                } else {
+                    l.tmpl_concrete_fail += 1;
+                    let k = fail_key();
+                    l.suspect(k, Suspect::new(p, "template", vec![i as u32, j as u32]));
+                }
+            } else if holds {
+                l.tmpl_nonconcrete_ok += 1;
+            } else {
+                l.tmpl_nonconcrete_mismatch += 1;
+                {
+                    let k = fail_key();
+                    if l.sample_nonconcrete_mismatch.len() < 2 && !k.contains("&mut") {
+                        l.sample_nonconcrete_mismatch.push((i as u32, j as u32));
+                    }
+                    *l.nonconcrete_mismatch_by_key.entry(k).or_insert(0) += 1;
+                }
+            }
+        }
+    }
+    if i > j {
+        return;
+    }
+    // ---- equivalence, both directions
+    let e_ij = ti.is_equivalent_to(tj).is_some();
+    let e_ji = if i == j { e_ij } else { tj.is_equivalent_to(ti).is_some() };
+    l.equiv_calls += if i == j { 1 } else { 2 };
+    let r = p.shape[i] == p.shape[j] && ref_equivalent_erased(&p.erased[i], &p.erased[j]);
+    if i == j {
+        if !r {
+            machinery_error("reference equivalence is not reflexive");
+        }
+        if e_ij {
+            l.equiv_related += 1;
+        } else {
+            l.equiv_not_reflexive += 1;
+            let k = laws::equiv_reflexive(&p.specs[i]).ok().and_then(|v| v.violation_key);
+            match k {
+                Some(k) => l.suspect(k, Suspect::new(p, "equiv-reflexive", vec![i as u32])),
+                None => machinery_error("nondeterministic: reflexivity"),
+            }
+        }
+    } else {
+        if r {
+            l.ref_related_distinct += 1;
+        }
+        for (x, y, e) in [(i, j, e_ij), (j, i, e_ji)] {
+            if e {
+                l.equiv_related += 1;
+                l.equiv_related_distinct += 1;
+                if x < p.quick_len && y < p.quick_len {
+                    l.related_quick.push((x as u32, y as u32));
+                }
+                if !r {
+                    l.equiv_unsound += 1;
+                    let k = laws::structural_diff_key(&p.erased[x], &p.erased[y]);
+                    l.suspect(
+                        format!("equiv-unsound:{k}"),
+                        Suspect::new(p, "equiv-sound", vec![x as u32, y as u32]),
+                    );
+                } else if l.sample_equiv.len() < 4 && !p.concrete[x] && spec::depth(&p.specs[x]) >= 2 && p.canon[x] != p.canon[y] {
+                    l.sample_equiv.push((x as u32, y as u32));
+                }
+            } else {
+                l.equiv_unrelated += 1;
+                if r {
+                    l.ref_related_impl_not += 1;
+                    if l.sample_ref_related_impl_not.len() < 2 {
+                        l.sample_ref_related_impl_not.push((x as u32, y as u32));
+                    }
+                }
+            }
+        }
+        if e_ij != e_ji {
+            l.equiv_asymmetric += 1;
+            let k = laws::structural_diff_key(&p.erased[i], &p.erased[j]);
+            l.suspect(
+                format!("equiv-asymmetric:{k}"),
+                Suspect::new(p, "equiv-symmetric", vec![i as u32, j as u32]),
+            );
+        }
+        // ---- equal canonical forms imply equivalence
+        if p.canon[i] == p.canon[j] {
+            l.canon_eq_pairs_distinct += 1;
+            for (x, y, e) in [(i, j, e_ij), (j, i, e_ji)] {
+                if !e {
+                    l.canon_eq_not_equiv += 1;
+                    let k = laws::structural_diff_key(&p.erased[x], &p.erased[y]);
+                    l.suspect(
+                        format!("canon-eq-not-equiv:{k}"),
+                        Suspect::new(p, "canon-eq-implies-equiv", vec![x as u32, y as u32]),
+                    );
+                }
+            }
+        }
+    }
+}
+
+/// Rows i = k (mod w) of the pair space. For a term of the quick universe (or a bare generic
+/// parameter) every partner of the quick universe is executed unfiltered; a pair with a member of
+/// the depth-3 extension is executed iff both roots have the same constructor kind.
+fn explore_pairs(p: &Prepared, by_kind: &[Vec<u32>], k: usize, w: usize) -> Local {
+    let (n, q) = (p.specs.len(), p.quick_len);
+    let mut l = Local::default();
+    let mut i = k;
+    while i < n {
+        let r = catch_unwind(AssertUnwindSafe(|| {
+            let mut cnt = 0u64;
+            let same_kind_ext = &by_kind[p.kind[i] as usize];
+            if i < q || p.kind[i] == KIND_GENERIC {
+                for j in 0..q {
+                    pair(p, i, j, &mut l);
+                }
+                cnt += q as u64;
+                if p.kind[i] == KIND_GENERIC {
+                    for j in q..n {
+                        pair(p, i, j, &mut l);
+                    }
+                    cnt += (n - q) as u64;
+                } else {
+                    for &j in same_kind_ext {
+                        pair(p, i, j as usize, &mut l);
+                    }
+                    cnt += same_kind_ext.len() as u64;
+                }
+            } else {
+                for j in 0..q {
+                    if p.kind[j] == p.kind[i] {
+                        pair(p, i, j, &mut l);
+                        cnt += 1;
+                    }
+                }
+                for &j in same_kind_ext {
+                    pair(p, i, j as usize, &mut l);
+                }
+                cnt += same_kind_ext.len() as u64;
+            }
+            cnt
+        }));
+        match r {
+            Ok(c) => l.pairs_done += c,
+            Err(_) => machinery_error(&format!(
+                "subject panicked in a pair law with first term {}",
+                show(&p.specs[i])
+            )),
+        }
+        i += w;
+    }
+    l
+}
+
+fn merge(into: &mut Local, from: Local) {
+    macro_rules! add { ($($f:ident),*) => { $( into.$f += from.$f; )* } }
+    add!(
+        pairs_done, tmpl_calls, tmpl_none, tmpl_some_empty, tmpl_some_nonempty_concrete_ok,
+        tmpl_some_empty_concrete_ok, tmpl_concrete_fail, tmpl_nonconcrete_ok,
+        tmpl_nonconcrete_mismatch, equiv_calls, equiv_related, equiv_related_distinct,
+        equiv_unrelated, equiv_unsound, equiv_asymmetric, equiv_not_reflexive,
+        ref_related_impl_not, ref_related_distinct, canon_eq_pairs_distinct, canon_eq_not_equiv
+    );
+    for (k, (n, s)) in from.by_key {
+        let e = into.by_key.entry(k).or_insert_with(|| (0, s.clone()));
+        e.0 += n;
+        if s < e.1 {
+            e.1 = s;
+        }
+    }
+    for (k, v) in from.nonconcrete_mismatch_by_key {
+        *into.nonconcrete_mismatch_by_key.entry(k).or_insert(0) += v;
+    }
+    into.related_quick.extend(from.related_quick);
+    into.sample_tmpl.extend(from.sample_tmpl);
+    into.sample_equiv.extend(from.sample_equiv);
+    into.sample_nonconcrete_mismatch.extend(from.sample_nonconcrete_mismatch);
+    into.sample_ref_related_impl_not.extend(from.sample_ref_related_impl_not);
+}
+
+fn replay(args: &Args, path: &std::path::Path) -> ! {
+    let case = verif_common::load_replay(path);
+    let law = case.get("law").and_then(|l| l.as_str()).unwrap_or_else(|| machinery_error("replay: missing law")).to_string();
+    let terms: Vec<S> = serde_json::from_value(case.get("terms").cloned().unwrap_or(Value::Null))
+        .unwrap_or_else(|e| machinery_error(&format!("replay: terms unreadable: {e}")));
+    let run = || laws::run(&law, &terms);
+    let v1 = catch_unwind(AssertUnwindSafe(run));
+    let v2 = catch_unwind(AssertUnwindSafe(run));
+    let (v1, v2) = match (v1, v2) {
+        (Ok(Ok(a)), Ok(Ok(b))) => (a, b),
+        (a, b) => machinery_error(&format!("replay could not be evaluated: {a:?} / {b:?}")),
+    };
+    if v1.violation_key != v2.violation_key {
+        machinery_error("nondeterministic replay verdict");
+    }
+    println!("REPLAY property={} law={law}", args.property);
+    for (n, t) in terms.iter().enumerate() {
+        println!("  term[{n}] = {}", show(t));
+    }
+    println!("  expected: {}", v1.expected);
+    println!("  observed: {}", v1.observed);
+    match &v1.violation_key {
+        Some(k) => {
+            println!("  verdict: STILL VIOLATES [key={k}]");
+            std::process::exit(1)
+        }
+        None => {
+            println!("  verdict: holds{}", if v1.applicable { "" } else { " (premise not satisfied)" });
+            std::process::exit(0)
+        }
+    }
+}
+
+fn main() {
+    let args = Args::parse();
+    if args.property != "C17" {
+        machinery_error("rt_typealg serves property C17 only");
+    }
+    if let Some(p) = args.replay.clone() {
+        replay(&args, &p);
+    }
+    let mut rep = Reporter::from_args(&args);
+    let thorough = args.tier.is_thorough();
+
+    // ---------------------------------------------------------------- universe
+    let mut uni = universe::build(thorough);
+    {
+        // the seed only permutes enumeration order (quick part and extension separately, so that
+        // the quick universe stays a prefix)
+        let q = uni.quick_len;
+        let mut head: Vec<S> = uni.terms[..q].to_vec();
+        let mut tail: Vec<S> = uni.terms[q..].to_vec();
+        verif_common::rotate_by_seed(&mut head, args.seed);
+        verif_common::rotate_by_seed(&mut tail, args.seed);
+        head.extend(tail);
+        uni.terms = head;
+    }
+    let p = prepare(&uni);
+    let n = p.specs.len();
+    let q = p.quick_len;
+    let depth_hist = {
+        let mut h = BTreeMap::new();
+        for s in &p.specs {
+            *h.entry(spec::depth(s).to_string()).or_insert(0u64) += 1;
+        }
+        h
+    };
+    let mut kind_hist = [0u64; N_KINDS];
+    for k in &p.kind {
+        kind_hist[*k as usize] += 1;
+    }
+    eprintln!("universe: {n} terms (quick prefix {q}); depth histogram {depth_hist:?}; prepared in {:.1}s", rep.wall_s());
+
+    // ---------------------------------------------------------------- pair laws
+    let mut by_kind: Vec<Vec<u32>> = vec![Vec::new(); N_KINDS];
+    for i in q..n {
+        by_kind[p.kind[i] as usize].push(i as u32);
+    }
+    // Workers are separate *processes*, not threads: every call into the subject creates ahash
+    // maps, and ahash's RandomState::new() bumps one process-global atomic, which serialises
+    // threads (measured: 16 threads were 8x slower in total CPU than 2).
+    let workers = match args.extra("workers") {
+        Some(w) => w.parse::<usize>().unwrap_or_else(|_| machinery_error("--workers N")),
+        None => std::thread::available_parallelism().map(|x| x.get()).unwrap_or(4).clamp(1, 16),
+    };
+    if let Some(k) = args.extra("worker") {
+        let k: usize = k.parse().unwrap_or_else(|_| machinery_error("--worker K"));
+        let l = explore_pairs(&p, &by_kind, k, workers);
+        println!("{}", serde_json::to_string(&l).unwrap());
+        std::process::exit(0);
+    }
+    // ---------------------------------------------------------------- unary laws (all terms)
+    let mut g = Local::default();
+    let mut canon_changed = 0u64;
+    let mut canon_idem_fail = 0u64;
+    let (mut render_ok, mut render_bad, mut render_nontrivial) = (0u64, 0u64, 0u64);
+    let mut render_samples: Vec<Value> = Vec::new();
+    {
+        let id2name = laws::id2name();
+        for i in 0..n {
+            let r = catch_unwind(AssertUnwindSafe(|| {
+                // canonicalise idempotent
+                let c2 = p.canon[i].inner().canonicalize();
+                let idem = c2 == p.canon[i];
+                // render round trip
+                let rendered = p.types[i].render_type(&id2name);
+                let back = syn::parse_str::<syn::Type>(&rendered)
+                    .ok()
+                    .and_then(|t| synconv::read(&t).ok());
+                (idem, rendered, back)
+            }));
+            let (idem, rendered, back) = match r {
+                Ok(x) => x,
+                Err(_) => machinery_error(&format!("subject panicked on canonicalize/render of {}", show(&p.specs[i]))),
+            };
+            if p.canon[i].inner() != &p.types[i] {
+                canon_changed += 1;
+            }
+            if !idem {
+                canon_idem_fail += 1;
+                match laws::canon_idempotent(&p.specs[i]) {
+                    Ok(Verdict { violation_key: Some(k), .. }) => {
+                        g.suspect(k, Suspect::new(&p, "canon-idempotent", vec![i as u32]))
+                    }
+                    other => machinery_error(&format!("nondeterministic: canon idempotence on {}: {other:?}", show(&p.specs[i]))),
+                }
+            }
+            if spec::depth(&p.specs[i]) >= 1 {
+                render_nontrivial += 1;
+            }
+            if back.as_ref() == Some(&p.specs[i]) {
+                render_ok += 1;
+                if render_samples.len() < 3 && spec::depth(&p.specs[i]) >= 2 {
+                    render_samples.push(json!({"law": "render-roundtrip", "term": show(&p.specs[i]), "rendered": rendered, "read_back": back.as_ref().map(show)}));
+                }
+            } else {
+                render_bad += 1;
+                match laws::render_roundtrip(&p.specs[i]) {
+                    Ok(Verdict { violation_key: Some(k), .. }) => {
+                        g.suspect(k, Suspect::new(&p, "render-roundtrip", vec![i as u32]))
+                    }
+                    other => machinery_error(&format!("nondeterministic: render round trip on {}: {other:?}", show(&p.specs[i]))),
+                }
+            }
+        }
+    }
+    eprintln!("unary laws done at {:.1}s", rep.wall_s());
+
+    if workers == 1 {
+        let l = explore_pairs(&p, &by_kind, 0, 1);
+        merge(&mut g, l);
+    } else {
+        let exe = std::env::current_exe().unwrap_or_else(|e| machinery_error(&format!("current_exe: {e}")));
+        let children: Vec<_> = (0..workers)
+            .map(|k| {
+                std::process::Command::new(&exe)
+                    .args(["--property", "C17", "--tier", args.tier.as_str(), "--worker", &k.to_string(), "--workers", &workers.to_string()])
+                    .stdin(std::process::Stdio::null())
+                    .stdout(std::process::Stdio::piped())
+                    .stderr(std::process::Stdio::null())
+                    .spawn()
+                    .unwrap_or_else(|e| machinery_error(&format!("cannot spawn worker: {e}")))
+            })
+            .collect();
+        for (k, c) in children.into_iter().enumerate() {
+            let out = c.wait_with_output().unwrap_or_else(|e| machinery_error(&format!("worker {k}: {e}")));
+            let text = String::from_utf8_lossy(&out.stdout).to_string();
+            if !out.status.success() {
+                machinery_error(&format!("worker {k} failed ({:?}): {}", out.status.code(), text.lines().last().unwrap_or("")));
+            }
+            let l: Local = serde_json::from_str(text.trim())
+                .unwrap_or_else(|e| machinery_error(&format!("worker {k} output unreadable: {e}")));
+            merge(&mut g, l);
+        }
+    }
+    let ordered_pairs = g.pairs_done;
+    if ordered_pairs != g.tmpl_calls {
+        machinery_error("pair accounting mismatch");
+    }
+    eprintln!("pair laws done at {:.1}s ({ordered_pairs} ordered pairs)", rep.wall_s());
+
+    // ---------------------------------------------------------------- transitivity, all triples of the quick universe
+    // R restricted to the quick universe; for every (a,b) in R and every c in R[b]: (a,c) in R.
+    let mut rows: Vec<Vec<u32>> = vec![Vec::new(); q];
+    for &(a, b) in &g.related_quick {
+        rows[a as usize].push(b);
+    }
+    for (a, r) in rows.iter_mut().enumerate() {
+        if g.equiv_not_reflexive == 0 {
+            r.push(a as u32);
+        }
+        r.sort_unstable();
+        r.dedup();
+    }
+    let mut triples_nonvacuous = 0u64;
+    let mut trans_fail = 0u64;
+    for a in 0..q {
+        for &b in &rows[a] {
+            for &c in &rows[b as usize] {
+                triples_nonvacuous += 1;
+                if rows[a].binary_search(&c).is_err() {
+                    trans_fail += 1;
+                    g.suspect(
+                        "equiv-not-transitive".into(),
+                        Suspect::new(&p, "equiv-transitive", vec![a as u32, b, c]),
+                    );
+                }
+            }
+        }
+    }
+    let class_sizes = {
+        let mut h: BTreeMap<String, u64> = BTreeMap::new();
+        for r in &rows {
+            *h.entry(r.len().to_string()).or_insert(0) += 1;
+        }
+        h
+    };
+    eprintln!("transitivity done at {:.1}s", rep.wall_s());
+
+    // ---------------------------------------------------------------- confirm + report
+    let mut keys: Vec<(String, (u64, Suspect))> = g.by_key.drain().collect();
+    keys.sort_by(|a, b| a.0.cmp(&b.0));
+    let mut occurrences = serde_json::Map::new();
+    for (key, (count, sus)) in &keys {
+        let terms: Vec<S> = sus.idx.iter().map(|&i| p.specs[i as usize].clone()).collect();
+        // re-execute the single case from scratch; it must reproduce with the same key
+        let v = match catch_unwind(AssertUnwindSafe(|| laws::run(&sus.law, &terms))) {
+            Ok(Ok(v)) => v,
+            other => machinery_error(&format!("confirmation of {key} failed to run: {other:?}")),
+        };
+        if v.violation_key.as_deref() != Some(key.as_str()) {
+            machinery_error(&format!(
+                "nondeterministic: suspect {key} re-executed as {:?} on {:?}",
+                v.violation_key,
+                terms.iter().map(show).collect::<Vec<_>>()
+            ));
+        }
+        occurrences.insert(key.clone(), json!(count));
+        let what = format!(
+            "law {}: expected {}; observed {} ({} occurrences in the bound)",
+            sus.law, v.expected, v.observed, count
+        );
+        rep.violation(
+            key,
+            &what,
+            json!({
+                "law": sus.law,
+                "terms": terms,
+                "display": terms.iter().map(show).collect::<Vec<_>>(),
+                "expected": v.expected,
+                "observed": v.observed,
+                "detail": v.detail,
+            }),
+        );
+    }
+
+    // ---------------------------------------------------------------- evidence
+    let mut samples: Vec<Value> = Vec::new();
+    g.sample_tmpl.sort();
+    for &(i, j) in g.sample_tmpl.iter().take(3) {
+        if let Ok(v) = laws::template(&p.specs[i as usize], &p.specs[j as usize], true) {
+            samples.push(json!({"law": "template", "holds": v.violation_key.is_none(), "case": v.detail}));
+        }
+    }
+    g.sample_equiv.sort();
+    for &(i, j) in g.sample_equiv.iter().take(3) {
+        samples.push(json!({"law": "equiv-sound", "a": show(&p.specs[i as usize]), "b": show(&p.specs[j as usize]), "impl": "equivalent", "reference": "equivalent",
+            "canonical_a": from_type(p.canon[i as usize].inner()).map(|s| show(&s)).ok(), "canonical_b": from_type(p.canon[j as usize].inner()).map(|s| show(&s)).ok()}));
+    }
+    samples.extend(render_samples);
+    let mut observations: Vec<Value> = Vec::new();
+    g.sample_nonconcrete_mismatch.sort();
+    for &(i, j) in g.sample_nonconcrete_mismatch.iter().take(2) {
+        if let Ok(v) = laws::template(&p.specs[i as usize], &p.specs[j as usize], false) {
+            observations.push(json!({"kind": "template-for-a-non-concrete-type (outside the property: c has generic parameters)", "case": v.detail}));
+        }
+    }
+    g.sample_ref_related_impl_not.sort();
+    for &(i, j) in g.sample_ref_related_impl_not.iter().take(2) {
+        observations.push(json!({"kind": "reference-equivalent but is_equivalent_to = None (completeness is not part of the property)", "a": show(&p.specs[i as usize]), "b": show(&p.specs[j as usize])}));
+    }
+
+    let distinct_nontrivial = g.tmpl_some_nonempty_concrete_ok
+        + g.tmpl_concrete_fail
+        + g.equiv_related_distinct
+        + canon_changed
+        + render_nontrivial;
+    let evaluations = g.tmpl_calls + g.equiv_calls + g.canon_eq_pairs_distinct + triples_nonvacuous + 2 * n as u64;
+    let rule = format!(
+        "Alphabet: leaves u8,bool,T,U,a::P,(),a::L<'static|'a|'_>,a::K<8>,fn(); unary &/&mut x {{'static,'a,'b,elided,'_}},(_,),[_],[_;1],[_;2],*const,*mut,a::Q<_>,a::M<'a,_>,fn(_),fn()->_,fn(x:_),unsafe extern \"C\" fn(_); binary (_,_),a::R<_,_>,fn(_)->_. \
+Bound: D1 = all terms of depth<=1; quick universe D2 = D1 + unary(D1) + binary(N1xN1), N1 = narrow terms (leaves u8,T,U,a::P; unary &,&mut,*mut,(_,),a::Q<_>) of depth<=1{}. \
+Pairs: every ordered pair of the quick universe is executed unfiltered{}. Triples: transitivity over ALL triples of the quick universe (evaluated as: for every related (a,b) and every c related to b, (a,c) must be related; unrelated prefixes are vacuous). \
+Oracle (real rustdoc_ir API vs engine reference): (1) t.is_a_template_for(c)=Some(b) and c without generic parameters => erase_lifetimes(t.bind_generic_type_parameters(b)) == erase_lifetimes(c) (mutability of references and raw pointers kept); (2) is_equivalent_to reflexive, symmetric, transitive; related => equal after erasing lifetimes and some bijective renaming of generic parameters (brute force over all bijections); canonicalize(a)==canonicalize(b) => related; (3) canonicalize idempotent; (4) syn::parse_str(render_type(t)) read by an independent syn reader (parenthesised type = inner type) == t. \
+Non-trivial: template pairs with Some(non-empty bindings) and concrete c; distinct related pairs; terms whose canonical form differs from the term; rendered terms of depth>=1.",
+        if thorough { "; thorough universe D3 = D2 + unary3(D2) + binary(N2xN2), unary3 = &/&mut x {elided,'a,'static},(_,),[_],[_;1],*const,*mut,a::Q<_>,fn(_),fn()->_, N2 = narrow terms of depth<=2" } else { "" },
+        if thorough { "; a pair with a depth-3 member is executed iff both roots have the same constructor kind or the template is a bare generic parameter (shape prefilter: other pairs fail at the root of both matchers)" } else { "" },
+    );
+    let coverage = json!({
+        "evaluations": evaluations,
+        "distinct_nontrivial": distinct_nontrivial,
+        "rule": rule,
+        "samples": samples,
+        "exhaustive": true,
+        "caps_hit": [],
+        "bound_completed": if thorough { "depth<=3 (restricted width)" } else { "depth<=2" },
+        "universe": {
+            "terms": n, "quick_universe_terms": q, "depth0": uni.d0, "depth_le1": uni.d1,
+            "by_depth": depth_hist,
+            "by_root_kind": {"scalar": kind_hist[0], "generic": kind_hist[1], "path": kind_hist[2], "reference": kind_hist[3], "tuple": kind_hist[4], "slice": kind_hist[5], "array": kind_hist[6], "raw_pointer": kind_hist[7], "fn_pointer": kind_hist[8]},
+            "concrete_terms": p.concrete.iter().filter(|c| **c).count(),
+        },
+        "ordered_pairs_executed": ordered_pairs,
+        "ordered_pairs_in_universe": (n as u64) * (n as u64),
+        "triples_quick_universe_total": (q as u64).pow(3),
+        "triples_nonvacuous": triples_nonvacuous,
+        "worker_processes": workers,
+        "outcome_histogram": {
+            "template": {
+                "none": g.tmpl_none,
+                "some_total": g.tmpl_calls - g.tmpl_none,
+                "some_with_empty_bindings": g.tmpl_some_empty,
+                "concrete_c_nonempty_bindings_law_holds": g.tmpl_some_nonempty_concrete_ok,
+                "concrete_c_empty_bindings_law_holds": g.tmpl_some_empty_concrete_ok,
+                "concrete_c_law_violated": g.tmpl_concrete_fail,
+                "nonconcrete_c_equation_holds (not judged)": g.tmpl_nonconcrete_ok,
+                "nonconcrete_c_equation_fails (not judged)": g.tmpl_nonconcrete_mismatch,
+                "nonconcrete_c_equation_fails_by_key (not judged)": g.nonconcrete_mismatch_by_key,
+            },
+            "equivalence": {
+                "calls": g.equiv_calls,
+                "related": g.equiv_related,
+                "related_distinct_terms": g.equiv_related_distinct,
+                "unrelated": g.equiv_unrelated,
+                "related_but_reference_says_different": g.equiv_unsound,
+                "asymmetric_pairs": g.equiv_asymmetric,
+                "not_reflexive": g.equiv_not_reflexive,
+                "transitivity_failures": trans_fail,
+                "reference_related_unordered_pairs": g.ref_related_distinct,
+                "reference_related_but_impl_unrelated (not judged)": g.ref_related_impl_not,
+                "impl_class_size_histogram_quick_universe": class_sizes,
+            },
+            "canonical": {
+                "terms_changed_by_canonicalize": canon_changed,
+                "idempotence_failures": canon_idem_fail,
+                "unordered_pairs_of_distinct_terms_with_equal_canonical_form": g.canon_eq_pairs_distinct,
+                "equal_canonical_form_but_unrelated": g.canon_eq_not_equiv,
+            },
+            "render": {"roundtrip_ok": render_ok, "roundtrip_lossy_or_unparsable": render_bad},
+        },
+        "violation_occurrences": occurrences,
+        "observations_not_judged": observations,
+    });
+    let code = rep.finish(
+        "exploration",
+        coverage,
+        &[
+            "path types all live in one package `a` with two-segment paths and no rustdoc id (the rendered source cannot carry a rustdoc id; Type::TypeAlias is not in the property's quantifier and renders like a path)",
+            "'up to lifetime names' is read as: all lifetimes ('static, named, '_, elided) are erased before comparing, as in DESIGN.md",
+            "fn-pointer parameter names are not part of the type: the equivalence reference ignores them",
+            "the template law is judged only for a concrete c (no generic parameters), as the property states; non-concrete c is counted, not judged",
+            "completeness of is_a_template_for / is_equivalent_to (finding every instance) is not stated by the property and only counted",
+        ],
+    );
+    std::process::exit(code);
+}
